@@ -39,7 +39,17 @@ Values(d) ==
     [] d = "armor" -> {"none", "checksum", "nochecksum"}
 
 Base == [source |-> "bytes", data_mode |-> "binary", partial |-> 0, compression |-> "none", signers |-> <<>>,
-         sign_text |-> FALSE, enc |-> [kind |-> "none"], passwords |-> <<>>, pubkeys |-> <<>>, armor |-> "none"]
+         sign_text |-> FALSE, enc |-> [kind |-> "none"], passwords |-> <<>>, pubkeys |-> <<>>, armor |-> "none",
+         set_session_key |-> "none"]
+
+(* the order of builder calls: a caller-chosen session key may be installed before the recipients are added ("first");   *)
+(* once a recipient holds the old key ("late") the builder refuses - and whatever it answers, what it then emits must    *)
+(* open for every recipient (C01's round trip), so the outcome is "ok" for both orders                                  *)
+OrderCfgs ==
+  { [Base EXCEPT !.enc = e, !.passwords = pw, !.pubkeys = pk, !.set_session_key = o] :
+      e \in {[kind |-> "v1", cipher |-> "aes128"], [kind |-> "v2", cipher |-> "aes128", aead |-> "ocb", chunk |-> 0]},
+      pw \in {<<>>, <<Pw("pw1", "iterated")>>}, pk \in {<<>>, <<Pk(1, FALSE)>>},
+      o \in {"first", "late"} }
 
 (* encryption needs somebody to encrypt to: a base encrypted configuration *)
 EncBase(e) == [Base EXCEPT !.enc = e]
@@ -82,6 +92,10 @@ BoundarySizes(c) ==
         ELSE {})
   \cup (IF c.enc.kind = "v2" /\ c.enc.chunk <= 7
         THEN UNION {Around(k * (2 ^ (c.enc.chunk + 6)), {0, 1, 8, 9, 17, 18}) : k \in 1..2}
+        ELSE {})
+  \* the chunk index is the big-endian tail of the AEAD nonce: the first carry out of its last octet happens at chunk 256
+  \cup (IF c.enc.kind = "v2" /\ c.enc.chunk <= 6
+        THEN Around(256 * (2 ^ (c.enc.chunk + 6)), {0, 1, 8, 9, 17, 18}) \cup {257 * (2 ^ (c.enc.chunk + 6)) + 5}
         ELSE {})
   \cup Around(8192, {0, 1, 8, 9, 14, 15, 22, 23})
   \* SEIPDv1 streaming decryption holds the last 22 octets back between refills of its 8 KiB buffer: the container body ends on a refill
